@@ -367,9 +367,12 @@ def promptStart (s : St) (d : Text) : St :=
   loadAll (startLoad { reset s d d.length with vpending := false })
 
 /-- `prompt(default=d, accept_default=True)`: `validate_and_handle` is scheduled with
-    `call_soon` in `pre_run`, i.e. *before* the loader task gets to run. -/
+    `call_soon` in `pre_run`, i.e. it runs *before* the loader task created by the first
+    render gets its first step; the loader then runs to completion while the application
+    finishes (or keeps waiting for keys when the default was rejected). -/
 def promptAcceptDefault (v : Validator) (s : St) (d : Text) : St × Option Text :=
-  validateAndHandle v { reset s d d.length with vpending := false } true
+  let (s1, r) := validateAndHandle v { reset s d d.length with vpending := false } true
+  (loadAll (startLoad s1), r)
 
 inductive Key
   | char (c : Char)      -- self-insert (arg 1)
